@@ -32,16 +32,29 @@ POOLS = {
                   sum=['A', 'N'], sum4=[], minb=[],
                   ops=['neg', 'add', 'sub', 'mul', 'madd', 'sum3', 'lpf']),
 }
+LOPS = list(gp.LANE_OPS)
+POOLS['fullL'] = dict(POOLS['full'], ops=LOPS)
+POOLS['smallL'] = dict(POOLS['small'], ops=LOPS)
+# lane programs: every leaf is a channel list (one channel per lane), every
+# statement multichannel-expands; lanes of different rates in one call
+LANES = {
+    'mix': [{}, {'A': 'K', 'K': 'A', 'B': 'L', 'L': 'B', 'P': 'I',
+                 'I': 'P'}],
+    'alt': [{}, {'A': 'B', 'B': 'A', 'K': 'L', 'L': 'K'}],
+    'three': [{}, {'A': 'K', 'K': 'I', 'N': 'L'}, {'A': 'I', 'K': 'A'}],
+}
 SPACES = {
     # name: (pool per statement position, output options)
     's1': (['full'], ['last', 'twice', 'none']),
     's2': (['small', 'small'], ['last', 'each', 'list']),
     's3': (['tiny', 'tiny', 'tiny'], ['last', 'each']),
     's3N': (['tinyN', 'tinyN', 'tinyN'], ['last', 'list']),
+    'l1': (['fullL'], ['last']),
+    'l2': (['smallL', 'smallL'], ['last', 'each']),
 }
 
 
-def programs(space, shard, of, tagbase, slice_of=1, slice_ix=0):
+def programs(space, shard, of, tagbase, slice_of=1, slice_ix=0, lanes=None):
     """All programs of a space whose prefix index falls in this shard (and,
     for a sliced space, in the selected slice)."""
     pools, outs = SPACES[space]
@@ -63,7 +76,10 @@ def programs(space, shard, of, tagbase, slice_of=1, slice_ix=0):
             continue
         for st in gp.statements(n - 1, POOLS[pools[n - 1]]):
             for o in outs:
-                yield {'stmts': prefix + [st], 'outs': o, 'tagbase': tagbase}
+                p = {'stmts': prefix + [st], 'outs': o, 'tagbase': tagbase}
+                if lanes:
+                    p['lanes'] = LANES[lanes]
+                yield p
 
 
 def check_program(prog):
@@ -102,7 +118,7 @@ def work(job):
     acc = progenum.Acc()
     for prog in programs(job['space'], job['shard'], job['of'],
                          job['tagbase'], job.get('slice_of', 1),
-                         job.get('slice_ix', 0)):
+                         job.get('slice_ix', 0), job.get('lanes')):
         dis, nt, outcome, skipped = check_program(prog)
         if skipped:
             acc.count('skipped_ill_formed')
@@ -234,7 +250,10 @@ def main(ctx):
         'Distinct = literally different program. Non-trivial = the AST has a '
         'neutral/absorbing constant operand, an operand shared inside a '
         'statement or between statements/outputs, a dead statement, or an '
-        'add/sub over a value produced by add/mul/neg/sum (optimiser rewrite).')
+        'add/sub over a value produced by add/mul/neg/sum (optimiser rewrite). '
+        'Lane programs: the same statements (neg add sub mul div madd) over '
+        'leaves that are channel lists, one channel per lane with lanes of '
+        'different rates; meaning = the scalar program run once per lane.')
     ctx.assumptions += [
         'reference semantics: mc/graphprog.py interpret() + mc/oracles/poly.py'
         ' (ring identities of + - * neg, x/c=x*(1/c)); opcode numbering typed '
@@ -254,6 +273,16 @@ def main(ctx):
     progenum.run(ctx, MODNAME, 'work',
                  [{'space': 's2', 'shard': i, 'of': NS, 'tagbase': tagbase}
                   for i in range(NS)], bound='2 statements, small pool')
+    for ln in sorted(LANES):
+        progenum.run(ctx, MODNAME, 'work',
+                     [{'space': 'l1', 'shard': i, 'of': 16, 'lanes': ln,
+                       'tagbase': tagbase} for i in range(16)],
+                     bound=f'1 statement over channel lists (lanes {ln})')
+    for ln in (['mix'] if ctx.tier == 'quick' else sorted(LANES)):
+        progenum.run(ctx, MODNAME, 'work',
+                     [{'space': 'l2', 'shard': i, 'of': NS, 'lanes': ln,
+                       'tagbase': tagbase} for i in range(NS)],
+                     bound=f'2 statements over channel lists (lanes {ln})')
     if ctx.tier == 'quick':
         k = 64
         for sp in ('s3', 's3N'):
